@@ -2001,6 +2001,14 @@ class Interp:
                     break
             if f_[0] in ('closure', 'fnitem') and is_agg(args[1], 'tuple'):
                 return self.apply_callable(st, fr, f_, [v for _, v in args[1][4]], dest, t['target'], site)
+        if decl in ('std::ops::Range::<Idx>::contains', 'std::ops::RangeInclusive::<Idx>::contains') and len(args) == 2:
+            # `(a..b).contains(&x)` is `a <= x && x < b` (`<=` for `a..=b`): a boolean over two canonical comparison atoms
+            r = self.strip_ref(st, a0)
+            x = self.strip_ref(st, args[1])
+            if is_agg(r) and agg_field(r, 'start') is not None and agg_field(r, 'end') is not None:
+                ty_ = t['args'][1].get('p', {}).get('ty', '').lstrip('&') or '?'
+                hi = 'Le' if 'Inclusive' in decl else 'Lt'
+                return ('bin', 'BitAnd', cmp_atom('Le', agg_field(r, 'start'), x, ty_), cmp_atom(hi, x, agg_field(r, 'end'), ty_), 'bool')
         if decl in ('std::cmp::PartialEq::eq', 'std::cmp::PartialEq::ne') and not self.local_body(t):
             x = self.strip_ref(st, a0)
             y = self.strip_ref(st, args[1])
